@@ -292,6 +292,12 @@ func (p *contractPayment) SubscribeBalance(ctx context.Context, handler func(acc
 	return nil
 }
 
+// ForgetAccount drops what is cached about the account's deposit, so that the
+// next lookup asks the node.
+func (p *contractPayment) ForgetAccount(account store.Account) {
+	p.balanceCache.Delete(account)
+}
+
 // GetBalance returns the unlocked deposit balance for an account.
 func (p *contractPayment) GetBalance(account store.Account) (*big.Int, error) {
 	if account == store.Account("") {
